@@ -15,13 +15,13 @@ Import ListNotations.
 (* Bound: the n_sites sites present in the source when the table was regenerated (n_sites is part
    of the generated file): calls of raising callees everywhere, plus - in the transform phase
    (transforms.py, Parser.parse) - every subscript, list.remove and Element.replace.  Every one
-   is out of scope, whitelisted with a justification, a listed open defect, or checked: each
+   is out of scope, whitelisted with a justification, or checked: each
    class of raises(callee) is caught by an enclosing handler or declared to escape the function
    (to call sites that are checked in turn). *)
-Theorem C01_sites_covered_partial :
-  List.length sites = n_sites /\ forallb (fun s => site_ok s || is_open s) sites = true.
+Theorem C01_sites_covered :
+  List.length sites = n_sites /\ forallb site_ok sites = true.
 Proof. exact sites_all_ok. Qed.
-Print Assumptions C01_sites_covered_partial.
+Print Assumptions C01_sites_covered.
 
 (* what "checked" means, for any site and without computation *)
 Theorem C01_site_check_sound : forall s es,
@@ -46,17 +46,15 @@ Theorem C01_tables_consistent : declared_ok = true /\ classes_known = true /\ ta
 Proof. exact tables_ok. Qed.
 Print Assumptions C01_tables_consistent.
 
-(* the full statement "every site is covered" is refuted today by the open sites: a link
-   destination with %00 reaches os.path / os.access as a NUL character (ValueError) in
-   render_link_project / render_link_path / render_link_unknown of the Sphinx renderer; and the
-   list of open sites can only name sites that really lack a handler *)
-Theorem C01_sites_covered_refuted :
-  open_sites <> [] /\
+(* sites listed as open defects (none today) are really uncovered: the list cannot be used to
+   hide a covered site.  It held the two urlparse() sites until 3eadb40 and the four
+   relfn2path / os.access sites of the Sphinx renderer (NUL in a link destination) until 9a2ab65. *)
+Theorem C01_open_sites_are_uncovered :
   forall f g c i sig, In (f, g, c, i, sig) open_sites ->
     exists s, In s sites /\ site_key_eqb s f g c i = true /\ site_ok s = false /\
               In "ValueError"%string (uncovered s).
-Proof. split; [exact open_sites_nonempty | exact open_sites_uncovered]. Qed.
-Print Assumptions C01_sites_covered_refuted.
+Proof. exact open_sites_uncovered. Qed.
+Print Assumptions C01_open_sites_are_uncovered.
 
 (* (a) component totality.
    1. update_section_level_state never takes max() of an empty set: for every sequence of
